@@ -1,9 +1,56 @@
-(* Props/C18.v -- property C18 (statements proved so far; see DESIGN.md section 7 C18). *)
-From Coq Require Import NArith List Bool.
-From NRF Require Import Env.Radio Env.RadioFacts.
+(* Props/C18.v -- property C18 (every advertisement is a well-formed BLE packet for the channel it is sent on).
+   Statements about the model of fake_ble.py (Ble/Ble.v), each closed by `exact`.  What is NOT proved
+   here: that the model's whitener/crc24_ble compute the LFSRs of the Bluetooth specification -- that
+   equality is checked on every advertisement of the correspondence run by an independent bit-serial
+   decoder (corr/bleref.py). *)
+From Coq Require Import ZArith NArith List Bool.
+From NRF Require Import Ble.Ble Ble.BleFacts.
 Import ListNotations.
-Local Open Scope N_scope.
-Theorem C18_status_is_pre_command : forall r cmd data,
-  hd 0 (snd (spi r (cmd :: data))) = status r.
-Proof. exact spi_status_first. Qed.
-Print Assumptions C18_status_is_pre_command.
+
+(* advertise() raises ValueError exactly when the packet would not fit: for every state whose name passed the
+   name setter (<= 18 bytes) and every payload (the caller's chunks), a packet is produced iff len_available >= 0 *)
+Theorem C18_raises_iff_it_does_not_fit : forall s payload,
+  name_ok s -> (exists p, make_payload s payload = BOk p) <-> (0 <= len_available s (length payload))%Z.
+Proof. exact make_payload_fits. Qed.
+Print Assumptions C18_raises_iff_it_does_not_fit.
+
+(* the packet: header 0x42, a length byte that counts exactly the bytes between it and the CRC, the configured
+   MAC, the flags field 02 01 05, the optional PA-level and name fields, the caller's chunks verbatim, the 3 CRC
+   bytes of all that; and len_available is exactly the number of bytes still free out of 32 *)
+Theorem C18_packet_shape : forall s payload p,
+  length (mac s) = 6%nat -> name_ok s -> make_payload s payload = BOk p ->
+  exists body,
+    body = mac s ++ [2; 1; 5]%N
+           ++ (if show_dbm s then [2; 10; byte_of_signed (pa s)]%N else [])
+           ++ (match name s with Some b => (N.of_nat (length b) + 1)%N :: 8%N :: b | None => [] end)
+           ++ payload
+    /\ p = 66%N :: N.of_nat (length body) :: body ++ crc24_ble (66%N :: N.of_nat (length body) :: body)
+    /\ Z.of_nat (length p) = (32 - len_available s (length payload))%Z.
+Proof. exact make_payload_shape. Qed.
+Print Assumptions C18_packet_shape.
+
+(* whitening is an involution on byte strings (for every coefficient byte): the receiver's de-whitening
+   recovers what the transmitter whitened, and bit reversal is an involution too *)
+Theorem C18_whitening_involution : forall l c, (c < 256)%N -> bytes l -> whitener (whitener l c) c = l.
+Proof. exact whitener_invol. Qed.
+Print Assumptions C18_whitening_involution.
+Theorem C18_bit_reversal_involution : forall l, bytes l -> reverse_bits (reverse_bits l) = l.
+Proof. exact reverse_bits_invol. Qed.
+Print Assumptions C18_bit_reversal_involution.
+
+(* After ANY sequence of hop_channel(), channel assignments (any integer), with-block exits and name/
+   show_pa_level/MAC/PA-level assignments, starting from a freshly constructed object, the BLE channel used for
+   whitening is the one whose frequency the radio is tuned to. *)
+Theorem C18_whitening_channel_follows_frequency : forall ops m,
+  Sync (fold_left chstep ops (init_bst m)).
+Proof. intros ops m. exact (sync_history ops _ (sync_init m)). Qed.
+Print Assumptions C18_whitening_channel_follows_frequency.
+Theorem C18_whitening_coefficient : forall s, Sync s ->
+  N.lor (curr_freq s + 37) 64 = N.lor (ble_channel_of_rf (channel s)) 64.
+Proof. exact sync_coef. Qed.
+Print Assumptions C18_whitening_coefficient.
+
+(* non-vacuity *)
+Example C18_example :
+  exists p, make_payload (init_bst [1; 2; 3; 4; 5; 6]%N) [3; 255; 7; 8]%N = BOk p /\ length p = 18%nat.
+Proof. eexists. split; vm_compute; reflexivity. Qed.
